@@ -202,12 +202,23 @@ def build_model(desc):
 # the property evaluated on one trace
 # =====================================================================================
 
-def trace(m, phase, Tstart, TMin, TMax, dT, rTol, paranoid, spinodal=True):
+def trace(m, phase, Tstart, TMin, TMax, dT, rTol, paranoid, spinodal=True, guess=0.0,
+          defaults=False, firstStep=None):
+    """`guess`: relative error of the starting guess (the API documents an APPROXIMATE
+    position of the phase); `defaults`: call tracePhase(TMin, TMax, dT) and let rTol,
+    spinodal, paranoid take their defaults; `firstStep`: phaseTracerFirstStep, documented
+    as a fraction of dT"""
     from WallGo import Fields
     from WallGo.freeEnergy import FreeEnergy
     ph = m.phases[phase]
-    fe = FreeEnergy(m.pot, Tstart, Fields(ph.loc(Tstart)))
-    fe.tracePhase(TMin, TMax, dT, rTol=rTol, spinodal=spinodal, paranoid=paranoid)
+    fe = FreeEnergy(m.pot, Tstart, Fields(ph.loc(Tstart) * (1.0 + guess)))
+    if defaults:
+        fe.tracePhase(TMin, TMax, dT)
+    elif firstStep is not None:
+        fe.tracePhase(TMin, TMax, dT, rTol=rTol, spinodal=spinodal, paranoid=paranoid,
+                      phaseTracerFirstStep=firstStep)
+    else:
+        fe.tracePhase(TMin, TMax, dT, rTol=rTol, spinodal=spinodal, paranoid=paranoid)
     return fe
 
 
@@ -218,6 +229,9 @@ def check_table(m, phase, fe, cfg, report):
     tab = np.asarray(fe._interpolationValues, dtype=float)
     dT, rTol = cfg["dT"], cfg["rTol"]
     TMin, TMax = max(cfg["TMin"], 0.0), cfg["TMax"]
+    # what the USER asked for (decides whether an end may be flagged); after a previous trace
+    # the call itself works on the request clamped to the previous range (decides coverage)
+    UMin, UMax = max(cfg.get("TMinUser", TMin), 0.0), cfg.get("TMaxUser", TMax)
     n = 0
     Ts, fs = m.Tscale, m.fscale
     # overshoot of the spinodal that the stop test cannot avoid: the last accepted point has a
@@ -321,24 +335,54 @@ def check_table(m, phase, fe, cfg, report):
                "minimum and are not minima of anything, e.g. T=%.10g fields=%s smallest exact "
                "Hessian eigenvalue %.4g" % (len(beyond_other), ph.Tlo, ph.Thi, phase, Ti, x,
                                             emin), dict(T=Ti, x=x, count=len(beyond_other)))
+    # which end(s) of the table left the range where the phase exists
+    bad_lo = any(r[0] < ph.Tlo for r in beyond_min + beyond_other + beyond_trans)
+    bad_hi = any(r[0] > ph.Thi for r in beyond_min + beyond_other + beyond_trans)
+    history = cfg.get("history", "single")
     if beyond_min:
         # genuine minima of another phase beyond a spinodal of the traced one: the tracer
-        # stepped over the spinodal and went on (points in transit belong to the same event)
+        # stepped over the spinodal and went on (points in transit belong to the same event).
+        # The recorded finding is narrow: one tracePhase call on a fresh object, one-field
+        # quartic (first-order spinodal: the other minimum is what BFGS slides into), the hop
+        # happens AT the spinodal (the last node on the branch is within two steps of it).
         Ti, x, emin = beyond_min[len(beyond_min) // 2]
-        report("trace-hops-phase-at-spinodal",
+        on = T[(T > ph.Tlo) & (T < ph.Thi)]
+        dist = min([abs(on.max() - ph.Thi) if bad_hi and len(on) else math.inf,
+                    abs(on.min() - ph.Tlo) if bad_lo and len(on) else math.inf])
+        key = "trace-hops-phase-at-spinodal"
+        if history != "single":
+            key = "hop-after-history"
+        elif m.nf != 1:
+            key = "hop-in-two-field-model"
+        elif dist > 2 * dT + 3 * slack:
+            key = "hop-away-from-spinodal"
+        report(key,
                "%d tabulated points lie beyond the spinodal of phase %s (a minimum only for "
                "%.8g < T < %.8g) and are genuine minima of ANOTHER phase, e.g. T=%.10g "
                "fields=%s: the tracer stepped over the spinodal and continued without "
-               "flagging the end" % (len(beyond_min), phase, ph.Tlo, ph.Thi, Ti, x),
+               "flagging the end (last node on the branch %.3g from the spinodal)" % (
+                   len(beyond_min), phase, ph.Tlo, ph.Thi, Ti, x, dist),
                dict(T=Ti, x=x, count=len(beyond_min)))
     elif beyond_trans:
+        # recorded finding: small unit system (BFGS's absolute gtol makes the re-minimisation
+        # a no-op), one-field quartic, single call
         Ti, x, emin = beyond_trans[len(beyond_trans) // 2]
-        report("tabulated-beyond-spinodal",
+        key = "tabulated-beyond-spinodal"
+        if history != "single":
+            key = "beyond-spinodal-after-history"
+        elif m.nf == 1 and m.unit >= 100:
+            # large units: scipy's absolute finite-difference step is rounding noise, the
+            # re-minimisation cannot move the point (recorded separately)
+            key = "minimiser-noop-in-large-units"
+        elif m.nf != 1 or m.unit > 1e-2:
+            key = "tabulated-beyond-spinodal-other-units"
+        report(key,
                "%d tabulated points lie outside the range (%.8g, %.8g) where phase %s exists "
                "and are not critical points, e.g. T=%.10g fields=%s" % (
                    len(beyond_trans), ph.Tlo, ph.Thi, phase, Ti, x),
                dict(T=Ti, x=x, count=len(beyond_trans)))
     hopped = bool(beyond_min or beyond_other or beyond_trans)
+    worst["hopped"] = 1.0 if hopped else 0.0
     if hopped:
         # points of the other phase inside the slack zone belong to the same event
         report.drop_near(ph.Tlo, ph.Thi, 0.01 * Ts)
@@ -348,13 +392,13 @@ def check_table(m, phase, fe, cfg, report):
     if mn[0] != T.min() + 2 * dT or mx[0] != T.max() - 2 * dT:
         report("margin", "reported range [%r, %r] is not the table [%r, %r] -/+ 2 dT" % (
             mn[0], mx[0], T.min(), T.max()), {})
-    for end, req, tabT, flag, spin_T, sgn in (
-            ("lower", TMin, T.min(), mn[1], ph.Tlo, +1), ("upper", TMax, T.max(), mx[1],
-                                                          ph.Thi, -1)):
+    for end, req, ureq, tabT, flag, spin_T, sgn in (
+            ("lower", TMin, UMin, T.min(), mn[1], ph.Tlo, +1),
+            ("upper", TMax, UMax, T.max(), mx[1], ph.Thi, -1)):
         n += 1
-        past = (req < spin_T - slack) if sgn > 0 else (req > spin_T + slack)
-        if hopped:
-            continue
+        past = (ureq < spin_T - slack) if sgn > 0 else (ureq > spin_T + slack)
+        if (bad_lo if sgn > 0 else bad_hi):
+            continue          # the wrong flag / range at this end is part of the hop finding
         if past:
             # the minimum ceases to exist inside the requested range
             if not flag:
@@ -363,7 +407,8 @@ def check_table(m, phase, fe, cfg, report):
                        "%.8g of the table is not flagged as a genuine disappearance" % (
                            end, req, spin_T, tabT), dict(end=end))
             gap = sgn * (tabT - spin_T)
-            if gap > 2 * dT + 0.02 * Ts:
+            # (a request clamped by a previous range can end before the spinodal)
+            if gap > 2 * dT + 0.02 * Ts + max(0.0, sgn * (req - spin_T)):
                 report("stops-early",
                        "%s end: table stops at %.8g, %.4g away from the spinodal %.8g "
                        "(step %.3g)" % (end, tabT, gap, spin_T, dT), dict(end=end))
@@ -378,13 +423,17 @@ def check_table(m, phase, fe, cfg, report):
                        "%s end: table ends at %.10g, requested %.10g, phase exists there" % (
                            end, tabT, req), dict(end=end))
     # ---- interpolation ------------------------------------------------------------------
-    if not hopped and mx[0] > mn[0]:
+    if mx[0] > mn[0]:
         inner = T[(T >= mn[0]) & (T <= mx[0])]
+        if hopped:
+            # only the part on the branch, five nodes away from the end that left it
+            inner = inner[(inner > ph.Tlo) & (inner < ph.Thi)]
+            inner = inner[(5 if bad_lo else 0): (len(inner) - 5 if bad_hi else len(inner))]
         k0 = np.arange(len(inner) - 1)
         if len(k0) > 40:
             k0 = k0[:: len(k0) // 40]
         pts = [(0.5 * (inner[k] + inner[k + 1]), inner[k + 1] - inner[k]) for k in k0]
-        for Tend in (mn[0], mx[0]):
+        for Tend in ([] if hopped else [mn[0], mx[0]]):
             k = int(np.searchsorted(T, Tend))
             k = min(max(k, 1), len(T) - 1)
             pts.append((Tend, T[k] - T[k - 1]))
@@ -453,8 +502,9 @@ class CaseTimeout(Exception):
 
 
 class time_limit:
-    """the tracer's loops are Python loops: a SIGALRM exception interrupts a trace that
-    does not terminate (normal traces take 0.05 - 3 s)"""
+    """the tracer's loops are Python loops: a signal exception interrupts a trace that does not
+    terminate.  The budget is CPU time of this process (ITIMER_PROF), so a loaded machine does
+    not turn a slow case into a failure (normal traces need 0.05 - 6 s of CPU)."""
 
     def __init__(self, seconds):
         self.seconds = seconds
@@ -464,17 +514,17 @@ class time_limit:
 
         def handler(signum, frame):
             raise CaseTimeout()
-        self.old = signal.signal(signal.SIGALRM, handler)
-        signal.setitimer(signal.ITIMER_REAL, self.seconds)
+        self.old = signal.signal(signal.SIGPROF, handler)
+        signal.setitimer(signal.ITIMER_PROF, self.seconds)
 
     def __exit__(self, *a):
         import signal
-        signal.setitimer(signal.ITIMER_REAL, 0)
-        signal.signal(signal.SIGALRM, self.old)
+        signal.setitimer(signal.ITIMER_PROF, 0)
+        signal.signal(signal.SIGPROF, self.old)
         return False
 
 
-LIMIT = 20.0
+LIMIT = 40.0          # CPU seconds per trace
 
 
 def _d4(f, t, h):
@@ -482,63 +532,37 @@ def _d4(f, t, h):
     return (f(t - 2 * h) - 4 * f(t - h) + 6 * f(t) - 4 * f(t + h) + f(t + 2 * h)) / h ** 4
 
 
-# Error model of the position of a tabulated minimum (absolute, in field units):
-#   tracer tolerance  (100 rTol + 1e-7) * field scale      RK45 rtol/atol and the acceptance
-#                                                           tests, accumulated over the sweep
+# Error model of the position of a tabulated minimum (absolute, in field units), the same in
+# every unit system:
+#   tracer tolerance  (30 rTol + 1e-6) * field scale   RK45 rtol/atol and the acceptance tests
+#                                                      accumulated over the sweep; measured on
+#                                                      the unchanged tree: 34..50 rTol for
+#                                                      rTol >= 1e-6, floor 1.2e-6 at rTol 1e-8
 #   x softness        curvature scale / smallest eigenvalue (errors grow ~1/H near a spinodal)
-#   + minimiser noise 2 eps_mach |V| / eps_fd / H           forward-difference gradient of
-#                     scipy's BFGS; eps_fd is read off the running code (minimiser_step):
-#                     scipy's absolute default 1.49e-8 unless findLocalMinimum passes options
-# TOL_SAFETY = 3 x the worst observed error/model on the unchanged tree (HEAD 03e0115, scipy's
-# absolute default step) over seeds 1..12 at quick size, 4 x 230 further cases at thorough
-# density and the VERIF_SEED=6 case: Newton step 1.29 (quartic1, unit 1e-3, paranoid off,
-# rTol 1e-8: RK45's accumulated error, the re-minimisation being a no-op in small units),
-# branch distance 0.39, interpolated fields 0.38, interpolated Veff 0.47  ->  3 x 1.29 ~ 4.
-# Every run records its own worst ratios in the evidence ("worst_error_over_model").
-TOL_SAFETY = 4.0
+# No allowance for "minimiser noise": a minimiser that cannot resolve the minimum is a defect
+# (family `perturbed guess`), not a tolerance.
+# TOL_SAFETY = 3 x the worst observed error/model on the unchanged tree (HEAD 03e0115): 2.7 for
+# the VERIF_SEED=6 case (quartic1, unit 1e-3, paranoid off, rTol 1e-8: RK45's accumulated
+# error, the re-minimisation being a no-op in small units), <= 1.7 over seeds 1..8 x 3 unit
+# systems x 4 tolerances.  Every run records its own worst ratios ("worst_error_over_model").
+TOL_SAFETY = 8.0
 # negative exact eigenvalue at an accepted point: worst observed 2.12 x 1e-7 T^2 (thorough tier)
 EIG_SAFETY = 7.0
 
 
-SCIPY_DEFAULT_EPS = 1.4901161193847656e-08      # scipy's absolute forward-difference step
-
-
-def minimiser_step(m):
-    """The finite-difference step the code under test really hands to scipy's minimiser:
-    findLocalMinimum is run once with scipy.optimize.minimize wrapped, and options['eps'] (if
-    any) is read off the call; without options scipy uses its absolute default."""
-    if getattr(m, "_eps_fd", None) is not None:
-        return m._eps_fd
-    import scipy.optimize
-    from WallGo import Fields
-    seen = []
-    orig = scipy.optimize.minimize
-
-    def spy(fun, x0, *a, **k):
-        opts = k.get("options") or {}
-        seen.append(opts.get("eps", opts.get("finite_diff_rel_step")))
-        return orig(fun, x0, *a, **k)
-    scipy.optimize.minimize = spy
-    try:
-        ph = m.phases[m.low]
-        T = 0.5 * (max(ph.Tlo, 0.0) + ph.Thi) if math.isfinite(ph.Thi) else 2 * ph.Tlo
-        m.pot.findLocalMinimum(Fields(ph.loc(T)), T, tol=1e-6)
-    finally:
-        scipy.optimize.minimize = orig
-    eps = seen[0] if seen and seen[0] is not None else SCIPY_DEFAULT_EPS
-    m._eps_fd = float(np.min(np.atleast_1d(np.asarray(eps, dtype=float))))
-    return m._eps_fd
-
-
 def err_model(m, rTol, soft, v, emin):
-    noise = 2.2e-16 * abs(v) / minimiser_step(m)
-    return (100 * rTol + 1e-7) * m.fscale * soft + 2 * noise / max(emin, 1e-300)
+    return (30 * rTol + 1e-6) * m.fscale * soft
 
 
-def note_worst(ctx, worst):
+def note_worst(ctx, worst, cfg=None):
     cov = getattr(ctx, "cov", None)
     if cov is None or not worst:
         return
+    big = {k: round(float(v), 2) for k, v in worst.items()
+           if k != "eig" and float(v) > 0.4 * TOL_SAFETY}
+    if big and cfg is not None and hasattr(ctx, "log"):
+        ctx.log("close to tolerance (error/model, tolerance at %g):" % TOL_SAFETY, big,
+                json.dumps(cfg, sort_keys=True))
     w = cov.setdefault("worst_error_over_model", {})
     for k, v in worst.items():
         w[k] = max(float(w.get(k, 0.0)), float(v))
@@ -556,36 +580,90 @@ def make_reporter(fails):
     return report
 
 
+def hop_bucket(m, cfg):
+    return "%s/%s/paranoid=%s/unit=%g" % (cfg["model"]["model"], cfg.get("phase", "tc"),
+                                          cfg["paranoid"], m.unit)
+
+
+def note_hop(ctx, m, cfg, worst):
+    """hop rate per bucket goes into the evidence (how often the known event occurs)"""
+    cov = getattr(ctx, "cov", None)
+    hopped = bool(worst.pop("hopped", 0.0)) if worst else False
+    if cov is None:
+        return hopped
+    r = cov.setdefault("hop_rate", {}).setdefault(hop_bucket(m, cfg), [0, 0])
+    r[1] += 1
+    r[0] += int(hopped)
+    return hopped
+
+
+MINIMISER_KEYS = ("gradient-not-zero", "interpolation-error", "interpolation-error-veff",
+                  "wrong-branch")
+
+
+def classify(m, cfg, key):
+    """narrow class rules of the findings recorded for histories / perturbed guesses"""
+    if cfg.get("guess") and m.unit >= 100 and key in MINIMISER_KEYS:
+        # recorded: in LARGE units scipy's absolute finite-difference step is rounding noise,
+        # findLocalMinimum does not move, the table inherits the error of the guess
+        return "minimiser-noop-in-large-units"
+    if cfg.get("firstStep") is not None and key == "raises":
+        # documented as a fraction of dT, handed to scipy as an absolute step
+        return "first-step-not-in-units-of-dT"
+    if cfg.get("history") == "retrace" and key == "end-flagged-wrongly":
+        return "stale-flag-after-retrace"
+    return key
+
+
+def emit(ctx, m, cfg, fails, kind, prefix=""):
+    seen = set()
+    for key, what, extra in fails:
+        key = classify(m, cfg, key)
+        if key in seen:
+            continue
+        seen.add(key)
+        ctx.fail_input("%s%s [%s]" % (prefix, what, json.dumps(cfg, sort_keys=True)),
+                       dict(kind=kind, cfg=cfg, clause=key, extra=extra), key=key)
+
+
+def guarded(report, what, fn):
+    """run one call of the code under test; every exception is judged, none skipped"""
+    try:
+        with time_limit(LIMIT):
+            return True, fn()
+    except CaseTimeout:
+        report("trace-does-not-terminate", "%s did not return within %g s of CPU time" % (
+            what, LIMIT), {})
+    except AssertionError as ex:
+        if "decrease dT" in str(ex):
+            return False, "refused"
+        report("raises", "%s raised %r" % (what, ex), {})
+    except np.linalg.LinAlgError as ex:
+        report("raises-linalgerror-at-spinodal", "%s raised %r instead of stopping at the "
+               "spinodal" % (what, ex), {})
+    except Exception as ex:
+        report("raises", "%s raised %r" % (what, ex), {})
+    return False, None
+
+
 def run_trace_case(ctx, cfg, tag):
-    """cfg: model description + phase, Tstart, TMin, TMax, dT, rTol, paranoid"""
+    """cfg: model description + phase, Tstart, TMin, TMax, dT, rTol, paranoid [, guess]"""
     m = build_model(cfg["model"])
     fails = []
     report = make_reporter(fails)
-    try:
-        with time_limit(LIMIT):
-            fe = trace(m, cfg["phase"], cfg["Tstart"], cfg["TMin"], cfg["TMax"], cfg["dT"],
-                       cfg["rTol"], cfg["paranoid"])
-    except CaseTimeout:
-        report("trace-does-not-terminate", "tracePhase did not return within %g s" % LIMIT, {})
-        fe = None
-    except AssertionError as ex:
-        # "Temperature range negative: decrease dT": documented refusal
-        if "decrease dT" in str(ex):
-            ctx.count("trace_refused_dT", cfg)
-            return None
-        report("raises", "tracePhase raised %r" % ex, {})
-        fe = None
-    except np.linalg.LinAlgError as ex:
-        report("raises-linalgerror-at-spinodal", "tracePhase raised %r instead of stopping at "
-               "the spinodal" % ex, {})
-        fe = None
-    except Exception as ex:
-        report("raises", "tracePhase raised %r" % ex, {})
-        fe = None
+    ok, fe = guarded(report, "tracePhase", lambda: trace(
+        m, cfg["phase"], cfg["Tstart"], cfg["TMin"], cfg["TMax"], cfg["dT"], cfg["rTol"],
+        cfg["paranoid"], guess=cfg.get("guess", 0.0), defaults=cfg.get("defaults", False),
+        firstStep=cfg.get("firstStep")))
+    if not ok and fe == "refused":
+        ctx.count("trace_refused_dT", cfg)
+        return None
     worst = {}
-    if fe is not None:
+    if ok:
         n, worst = check_table(m, cfg["phase"], fe, cfg, report)
-        note_worst(ctx, worst)
+        note_hop(ctx, m, cfg, worst)
+        if not (cfg.get("guess") and (fails or m.unit >= 100)):
+            note_worst(ctx, worst, cfg)
         for _ in range(n):
             ctx.count("direct_" + tag)
     ph = m.phases[cfg["phase"]]
@@ -593,14 +671,78 @@ def run_trace_case(ctx, cfg, tag):
                                                         else "")
     ctx.count("trace_" + tag, cfg, bucket="%s/%s/paranoid=%s/past=%s" % (
         cfg["model"]["model"], cfg["phase"], cfg["paranoid"], past or "none"))
-    seen = set()
-    for key, what, extra in fails:
-        if key in seen:
-            continue
-        seen.add(key)
-        ctx.fail_input("%s [%s]" % (what, json.dumps(cfg, sort_keys=True)),
-                       dict(kind="trace", cfg=cfg, clause=key, extra=extra), key=key)
+    emit(ctx, m, cfg, fails, "trace")
     return worst
+
+
+def run_history_case(ctx, cfg):
+    """Several operations on ONE FreeEnergy object, then the property on its final state.
+    cfg["ops"]: ["trace", TMin, TMax] | ["eval", lo, hi, n] (n direct evaluations, not
+    interpolated, in one array call)."""
+    from WallGo import Fields
+    from WallGo.freeEnergy import FreeEnergy
+    m = build_model(cfg["model"])
+    ph = m.phases[cfg["phase"]]
+    fails = []
+    report = make_reporter(fails)
+    fe = FreeEnergy(m.pot, cfg["Tstart"], Fields(ph.loc(cfg["Tstart"])))
+    req, ntrace, evald, extended = None, 0, False, False
+    for op in cfg["ops"]:
+        if op[0] == "trace":
+            prev = (float(fe.minPossibleTemperature[0]), float(fe.maxPossibleTemperature[0]))
+            ok, r = guarded(report, "tracePhase(%g, %g)" % (op[1], op[2]),
+                            lambda: fe.tracePhase(op[1], op[2], cfg["dT"], rTol=cfg["rTol"],
+                                                  paranoid=cfg["paranoid"]))
+            if not ok:
+                break
+            # what this call was asked for, after the documented clamp by the previous range
+            req = (max(prev[0], op[1]), min(prev[1], op[2]))
+            ureq = (op[1], op[2])
+            ntrace += 1
+        else:
+            before = np.asarray(fe._interpolationPoints, dtype=float).copy()
+            ok, r = guarded(report, "FreeEnergy(linspace(%g, %g, %d), False)" % tuple(op[1:]),
+                            lambda: fe(np.linspace(op[1], op[2], int(op[3])), False))
+            if not ok:
+                break
+            evald = True
+            after = np.asarray(fe._interpolationPoints, dtype=float)
+            ctx.count("direct_history")
+            if len(after) != len(before) or not np.array_equal(after, before):
+                new = after[(after < before.min()) | (after > before.max())]
+                if len(new):
+                    extended = True
+                    probe = ""
+                    for Tp in (ph.Thi + 0.02 * m.Tscale, ph.Tlo - 0.02 * m.Tscale):
+                        if after.min() <= Tp <= after.max() and not (ph.Tlo < Tp < ph.Thi):
+                            try:
+                                rr = fe(float(Tp))
+                                probe = "; FreeEnergy(%.8g) now returns fields %s although the " \
+                                        "phase does not exist there" % (Tp, np.asarray(
+                                            rr.fieldsAtMinimum).ravel().tolist())
+                            except Exception:
+                                pass
+                    report("direct-evaluation-extends-table",
+                           "after %d direct evaluations on [%g, %g] the traced table [%.8g, "
+                           "%.8g] has become [%.8g, %.8g] (%d nodes added outside it by "
+                           "untracked minimisation); min/maxPossibleTemperature still %r, %r"
+                           % (op[3], op[1], op[2], before.min(), before.max(), after.min(),
+                              after.max(), len(new), fe.minPossibleTemperature,
+                              fe.maxPossibleTemperature) + probe, {})
+    # (after an untracked extension the table is no longer the tracer's: one event, one key)
+    if req is not None and fe.hasInterpolation() and not extended:
+        sub = dict(cfg, TMin=req[0], TMax=req[1], TMinUser=ureq[0], TMaxUser=ureq[1],
+                   history="evals" if evald else ("retrace" if ntrace > 1 else "single"))
+        n, worst = check_table(m, cfg["phase"], fe, sub, report)
+        worst.pop("hopped", None)
+        if not fails:
+            note_worst(ctx, worst)
+        for _ in range(n):
+            ctx.count("direct_history")
+        cfg = dict(cfg, history=sub["history"])
+    ctx.count("history_case", cfg, bucket="%s/%s" % (cfg["model"]["model"],
+                                                    "+".join(o[0] for o in cfg["ops"])))
+    emit(ctx, m, cfg, fails, "history")
 
 
 # =====================================================================================
@@ -691,7 +833,8 @@ def tc_cfgs(rng, count, units=(1.0,)):
         out.append(dict(model=md, Tn=Tn, Wmin=Wmin, Wmax=Wmax,
                         dT=rng.choice([0.002, 0.005, 0.01]) * (hi - lo) * 3,
                         rTol=rng.choice([1e-5, 1e-6, 1e-8]),
-                        paranoid=rng.choice([True, False])))
+                        paranoid=rng.choice([True, False]),
+                        pretraced=rng.random() < 0.3))
     return out
 
 
@@ -703,9 +846,16 @@ def run_tc_case(ctx, cfg):
     report = make_reporter(fails)
     th = Thermodynamics(m.pot, cfg["Tn"], Fields(low.loc(cfg["Tn"])),
                         Fields(high.loc(cfg["Tn"])))
-    for fe in (th.freeEnergyHigh, th.freeEnergyLow):
-        fe.minPossibleTemperature[0] = cfg["Wmin"]
-        fe.maxPossibleTemperature[0] = cfg["Wmax"]
+    if cfg.get("pretraced"):
+        # the usual path (WallGoManager): both phases traced beforehand over the window
+        for fe in (th.freeEnergyHigh, th.freeEnergyLow):
+            ok, _ = guarded(report, "tracePhase", lambda: fe.tracePhase(
+                cfg["Wmin"], cfg["Wmax"], cfg["dT"], rTol=cfg["rTol"],
+                paranoid=cfg["paranoid"]))
+    else:
+        for fe in (th.freeEnergyHigh, th.freeEnergyLow):
+            fe.minPossibleTemperature[0] = cfg["Wmin"]
+            fe.maxPossibleTemperature[0] = cfg["Wmax"]
     Tc = None
     import scipy.optimize
     orig = scipy.optimize.root_scalar
@@ -725,7 +875,7 @@ def run_tc_case(ctx, cfg):
                 scipy.optimize.root_scalar = orig
     except CaseTimeout:
         report("trace-does-not-terminate", "findCriticalTemperature did not return within "
-               "%g s" % (2 * LIMIT), {})
+               "%g s of CPU time" % (2 * LIMIT), {})
     except AssertionError as ex:
         if "decrease dT" in str(ex):
             ctx.count("tc_refused_dT", cfg)
@@ -755,11 +905,13 @@ def run_tc_case(ctx, cfg):
         sub = dict(cfg, phase=name, Tstart=cfg["Tn"], TMin=cfg["Wmin"], TMax=cfg["Wmax"])
         before = len(fails)
         n, w_ = check_table(m, name, fe, sub, report)
-        note_worst(ctx, w_)
-        hopped = hopped or any(f[0] == "trace-hops-phase-at-spinodal" for f in fails[before:])
+        hopped = note_hop(ctx, m, sub, w_) or hopped
+        note_worst(ctx, w_, sub)
         for _ in range(n):
             ctx.count("direct_tc_tables")
-    if Tc is not None and not hopped:
+    # Tc is judged also when a trace left its branch beyond a spinodal: the crossing lies
+    # between the spinodals, where both tables are on their branches
+    if Tc is not None:
         ctx.count("direct_tc")
         tol = (1e-6 + 100 * cfg["rTol"]) * m.Tc + 0.05 * cfg["dT"] * (cfg["dT"] / m.Tscale) ** 2
         note_worst(ctx, dict(tc=abs(Tc - m.Tc) / tol))
@@ -780,13 +932,7 @@ def run_tc_case(ctx, cfg):
                                                                              Tc - d), {})
     ctx.count("tc_case", cfg, bucket="%s/paranoid=%s" % (cfg["model"]["model"],
                                                          cfg["paranoid"]))
-    seen = set()
-    for key, what, extra in fails:
-        if key in seen:
-            continue
-        seen.add(key)
-        ctx.fail_input("findCriticalTemperature: %s [%s]" % (what, json.dumps(
-            cfg, sort_keys=True)), dict(kind="tc", cfg=cfg, clause=key, extra=extra), key=key)
+    emit(ctx, m, cfg, fails, "tc", prefix="findCriticalTemperature: ")
 
 
 # =====================================================================================
@@ -846,10 +992,8 @@ def book_goal(k, T, dT, TMinReq, TMaxReq, prior, after):
                                       str(prior[1][1]).lower())
     want_min, want_max = M + 2 * Fraction(dT), N - 2 * Fraction(dT)
     lst = "[" + "; ".join(q(x) for x in L) + "]"
-    cm = "(clamp_TMin %s %s)" % (st0, q(Fraction(TMinReq)))
-    cM = "(clamp_TMax %s %s)" % (st0, q(Fraction(TMaxReq)))
     goal = """Definition L%(k)d : list R := %(lst)s.
-Goal let st' := tail L%(k)d %(dT)s %(cm)s %(cM)s %(st0)s in
+Goal let st' := after_trace L%(k)d %(dT)s %(tmin)s %(tmax)s %(st0)s in
   minT st' = %(wmin)s /\\ maxT st' = %(wmax)s /\\ minFlag st' = %(fa)s /\\ maxFlag st' = %(fb)s.
 Proof.
   intros st'.
@@ -859,33 +1003,32 @@ Proof.
   assert (LM : lmax L%(k)d = %(N)s).
   { apply lmax_is; [unfold L%(k)d; do %(iN)d right; left; reflexivity
                    |unfold L%(k)d; repeat (apply Forall_cons; [lra|]); apply Forall_nil]. }
-  destruct (tail_values L%(k)d %(dT)s %(cm)s %(cM)s %(st0)s) as [A [B [C D]]].
-  fold st' in A, B, C, D. rewrite A, B, C, D, Lm, LM.
-  unfold clamp_TMin, clamp_TMax. cbn [minT maxT minFlag maxFlag orb].
-  repeat split; try lra.
-  all: first [reflexivity
-             |unfold Rmax, Rmin;
-              repeat match goal with |- context [Rle_dec ?x ?y] => destruct (Rle_dec x y) end;
-              first [apply Rltb_true; lra|apply Rltb_false; lra]].
+  destruct (tail_values L%(k)d %(dT)s (clamp_TMin %(st0)s %(tmin)s) (clamp_TMax %(st0)s %(tmax)s)
+              (keep_min %(st0)s %(tmin)s) (keep_max %(st0)s %(tmax)s) %(st0)s) as [A [B [C D]]].
+  unfold st', after_trace. rewrite A, B, C, D, Lm, LM.
+  unfold clamp_TMin, clamp_TMax, keep_min, keep_max. cbn [minT maxT minFlag maxFlag andb].
+  assert (RT : forall x y, x < y -> Rltb x y = true) by (intros; apply Rltb_true; assumption).
+  assert (RF : forall x y, y <= x -> Rltb x y = false) by (intros; apply Rltb_false; assumption).
+  assert (LT : forall x y, x <= y -> Rleb x y = true) by (intros; apply Rleb_true; assumption).
+  assert (LF : forall x y, y < x -> Rleb x y = false) by (intros; apply Rleb_false; assumption).
+  unfold Rmax, Rmin;
+    repeat match goal with |- context [Rle_dec ?x ?y] => destruct (Rle_dec x y) end;
+    try lra;
+    repeat match goal with
+      | |- context [Rltb ?x ?y] => first [rewrite (RT x y) by lra | rewrite (RF x y) by lra]
+      | |- context [Rleb ?x ?y] => first [rewrite (LT x y) by lra | rewrite (LF x y) by lra]
+      end;
+    cbn [orb andb]; repeat split; try reflexivity; lra.
 Qed.
 """
     cmin = max(a0, Fraction(TMinReq))
     cmax = min(b0, Fraction(TMaxReq))
-    fa = bool(prior[0][1]) or (cmin < M)
-    fb = bool(prior[1][1]) or (N < cmax)
-
-    def flagproof(is_true, prior_flag, lemma_t, lemma_f):
-        if prior_flag:
-            return "reflexivity."
-        pre = "unfold Rmax, Rmin; repeat match goal with |- context [Rle_dec ?x ?y] => " \
-              "destruct (Rle_dec x y) end; "
-        return pre + ("apply %s; lra." % (lemma_t if is_true else lemma_f))
+    fa = (cmin < M) or (bool(prior[0][1]) and Fraction(TMinReq) <= a0)
+    fb = (N < cmax) or (bool(prior[1][1]) and b0 <= Fraction(TMaxReq))
     return goal % dict(
-        k=k, lst=lst, dT=q(Fraction(dT)), cm=cm, cM=cM, st0=st0, wmin=q(want_min),
-        wmax=q(want_max), fa=str(bool(after[0][1])).lower(), fb=str(bool(after[1][1])).lower(),
-        M=q(M), N=q(N), iM=L.index(M), iN=L.index(N),
-        pa=flagproof(bool(after[0][1]), bool(prior[0][1]), "Rltb_true", "Rltb_false"),
-        pb=flagproof(bool(after[1][1]), bool(prior[1][1]), "Rltb_true", "Rltb_false")), \
+        k=k, lst=lst, dT=q(Fraction(dT)), tmin=q(Fraction(TMinReq)), tmax=q(Fraction(TMaxReq)),
+        st0=st0, wmin=q(want_min), wmax=q(want_max), fa=str(bool(after[0][1])).lower(),
+        fb=str(bool(after[1][1])).lower(), M=q(M), N=q(N), iM=L.index(M), iN=L.index(N)), \
         (float(want_min), float(want_max), fa, fb)
 
 
@@ -904,8 +1047,12 @@ def book_file(ctx, rng, count):
         ph = m.phases[cfg["phase"]]
         fe = FreeEnergy(m.pot, cfg["Tstart"], Fields(ph.loc(cfg["Tstart"])))
         calls = [(cfg["TMin"], cfg["TMax"])]
-        if rng.random() < 0.5:      # second call with a wider request on the traced object
+        r2 = rng.random()
+        if r2 < 0.35:     # second call with a wider request on the traced object
             calls.append((cfg["TMin"] - 0.1 * m.Tscale, cfg["TMax"] + 0.1 * m.Tscale))
+        elif r2 < 0.7:    # ... or a narrower one around the start
+            calls.append((cfg["Tstart"] - 0.3 * (cfg["Tstart"] - cfg["TMin"]),
+                          cfg["Tstart"] + 0.3 * (cfg["TMax"] - cfg["Tstart"])))
         for TMinReq, TMaxReq in calls:
             prior = ([float(fe.minPossibleTemperature[0]), bool(fe.minPossibleTemperature[1])],
                      [float(fe.maxPossibleTemperature[0]), bool(fe.maxPossibleTemperature[1])])
@@ -954,6 +1101,170 @@ DIRECTED = [
 ]
 
 
+# production-size sweep: range/dT of several thousand (the manager's dT = scale * tol^0.25), a
+# phase that exists on the whole range must be covered to its end and not flagged
+DIRECTED_FINE = [
+    {"model": {"model": "quartic1", "D": 0.2, "E": 0.05, "lam": 0.1, "T0": 80.0, "g": 100.0,
+               "unit": 1.0}, "phase": "sym", "Tstart": 100.0, "TMin": 90.0, "TMax": 172.0,
+     "dT": 0.016, "rTol": 1e-06, "paranoid": False},
+]
+# a paranoid two-field trace past a spinodal (second-order type: the re-minimiser stays on the
+# saddle, the tracer must stop and flag) - any hop here is NOT the recorded finding
+DIRECTED += [
+    {"model": {"model": "twofield", "theta": -1.0, "unit": 1.0}, "phase": "A",
+     "Tstart": 55.37749241945383, "TMin": 33.2264954516723, "TMax": 134.75498483890766,
+     "dT": 0.24, "rTol": 1e-06, "paranoid": True},
+]
+
+
+# histories that exposed defects which are now fixed (c55f8fe stale end-of-phase flag after a
+# narrower re-trace; 03a9a43 direct evaluations extended a traced table): must stay quiet
+DIRECTED_HISTORY = [
+    {
+        "model": {
+            "model": "quartic1",
+            "D": 0.2,
+            "E": 0.05,
+            "lam": 0.1,
+            "T0": 80.0,
+            "g": 100.0,
+            "unit": 1.0
+        },
+        "phase": "broken",
+        "Tstart": 70.0,
+        "ops": [
+            [
+                "trace",
+                60.0,
+                95.0
+            ],
+            [
+                "trace",
+                65.0,
+                80.0
+            ]
+        ],
+        "dT": 0.5,
+        "rTol": 1e-08,
+        "paranoid": True
+    },
+    {
+        "model": {
+            "model": "quartic1",
+            "D": 0.2,
+            "E": 0.05,
+            "lam": 0.1,
+            "T0": 80.0,
+            "g": 100.0,
+            "unit": 1.0
+        },
+        "phase": "broken",
+        "Tstart": 70.0,
+        "ops": [
+            [
+                "trace",
+                60.0,
+                95.0
+            ],
+            [
+                "eval",
+                40.0,
+                95.0,
+                500
+            ]
+        ],
+        "dT": 0.5,
+        "rTol": 1e-08,
+        "paranoid": True
+    }
+]
+
+
+def history_cfgs(rng, count, units=(1.0,)):
+    """several operations on one FreeEnergy object"""
+    out = []
+    for _ in range(count):
+        unit = rng.choice(units)
+        D, E, lam, T0 = rng.choice([0.15, 0.2, 0.3]), rng.choice([0.03, 0.05]), \
+            rng.choice([0.08, 0.1]), rng.choice([60.0, 80.0])
+        md = dict(model="quartic1", D=D, E=E, lam=lam, T0=T0, g=100.0, unit=unit)
+        ex = wgmodels.quartic1_exact(D, E, lam, T0 * unit, 100.0)
+        T1 = ex["Tspin_broken"]
+        Tstart = 0.85 * T0 * unit
+        lo, hi = 0.7 * T0 * unit, T1 + 0.1 * T0 * unit          # past the upper spinodal
+        kind = rng.choice(["narrower", "narrower", "evals", "same"])
+        if kind == "narrower":      # then a request that stays inside the phase
+            ops = [["trace", lo, hi], ["trace", 0.75 * T0 * unit, 0.5 * (Tstart + T1)]]
+        elif kind == "same":
+            ops = [["trace", lo, hi], ["trace", lo, hi]]
+        else:                       # direct evaluations straddling the table
+            ops = [["trace", lo, hi], ["eval", 0.5 * T0 * unit, hi, 500]]
+        out.append(dict(model=md, phase="broken", Tstart=Tstart, ops=ops,
+                        dT=0.006 * T0 * unit, rTol=rng.choice([1e-6, 1e-8]),
+                        paranoid=rng.choice([True, False])))
+    return out
+
+
+def path_cfgs(rng, count, units=(1.0,)):
+    """other ways into the same code: all defaults, phaseTracerFirstStep (the manager passes
+    it), ranges inside the phase"""
+    out = []
+    for cfg in q1_cfgs(rng, count, units) + tf_cfgs(rng, count, units):
+        m = build_model(cfg["model"])
+        ph = m.phases[cfg["phase"]]
+        lo = max(ph.Tlo, 0.4 * m.Tscale)
+        hi = ph.Thi if math.isfinite(ph.Thi) else 2.0 * m.Tscale
+        cfg["Tstart"] = lo + 0.5 * (hi - lo)
+        cfg["TMin"], cfg["TMax"] = lo + 0.25 * (hi - lo), lo + 0.75 * (hi - lo)
+        if rng.random() < 0.5:
+            cfg.update(defaults=True, rTol=1e-6, paranoid=True)     # the documented defaults
+        else:
+            cfg["firstStep"] = rng.choice([0.5, 0.1, 0.01])
+        out.append(cfg)
+    return out
+
+
+# boundary values of the arguments (all fine on the unchanged tree); a start temperature
+# OUTSIDE [TMin, TMax] is refused loudly (ValueError from the spline) and is not generated
+_Q = {"model": "quartic1", "D": 0.2, "E": 0.05, "lam": 0.1, "T0": 80.0, "g": 100.0, "unit": 1.0}
+DIRECTED += [
+    dict(model=_Q, phase="broken", Tstart=70.0, TMin=70.0, TMax=80.0, dT=0.5, rTol=1e-6,
+         paranoid=True),
+    dict(model=_Q, phase="broken", Tstart=80.0, TMin=70.0, TMax=80.0, dT=0.5, rTol=1e-6,
+         paranoid=False),
+    dict(model=_Q, phase="broken", Tstart=70.0, TMin=0.0, TMax=80.0, dT=0.5, rTol=1e-6,
+         paranoid=True),
+    dict(model=_Q, phase="broken", Tstart=70, TMin=60, TMax=80, dT=1, rTol=1e-6,
+         paranoid=True),
+    # tight tolerances next to a spinodal, ranges that stay inside the phase: the table must
+    # reach the request and must not be flagged (the reported range is the table -/+ 2 dT)
+    dict(model={"model": "quartic1", "D": 0.2, "E": 0.03, "lam": 0.08, "T0": 80.0, "g": 100.0,
+                "unit": 1.0}, phase="broken", Tstart=80.7665, TMin=72.0,
+         TMax=0.999 * 82.65809276925162, dT=0.004 * 80.7665, rTol=1e-12, paranoid=False),
+    dict(model={"model": "quartic1", "D": 0.3, "E": 0.03, "lam": 0.08, "T0": 80.0, "g": 100.0,
+                "unit": 1.0}, phase="sym", Tstart=80.862, TMin=80.04, TMax=88.0,
+         dT=0.004 * 80.862, rTol=1e-8, paranoid=True),
+]
+
+
+def guess_cfgs(rng, count, units=(1.0,)):
+    """the documented use: an APPROXIMATE starting guess (1-3 % off, inside the basin),
+    ranges inside the phase"""
+    out = []
+    for cfg in q1_cfgs(rng, count, units) + tf_cfgs(rng, count, units):
+        m = build_model(cfg["model"])
+        ph = m.phases[cfg["phase"]]
+        lo = max(ph.Tlo, 0.4 * m.Tscale)
+        hi = ph.Thi if math.isfinite(ph.Thi) else 2.0 * m.Tscale
+        cfg["Tstart"] = lo + 0.5 * (hi - lo)
+        cfg["TMin"], cfg["TMax"] = lo + 0.25 * (hi - lo), lo + 0.75 * (hi - lo)
+        cfg["guess"] = rng.choice([-0.03, -0.01, 0.01, 0.03])
+        if cfg["phase"] == "sym":
+            continue
+        out.append(cfg)
+    return out
+
+
 # findCriticalTemperature tracing both phases itself from a window that extends past both
 # spinodals, in a rotated two-field basis, with and without re-minimisation
 DIRECTED_TC = [
@@ -962,12 +1273,28 @@ DIRECTED_TC = [
 ]
 
 
+def replay_cfg(ctx, cfg, tag):
+    if "ops" in cfg:
+        run_history_case(ctx, cfg)
+    elif "Tn" in cfg:
+        run_tc_case(ctx, cfg)
+    else:
+        run_trace_case(ctx, cfg, tag)
+
+
 def run(ctx):
     ok = True
     try:
+        import glob
+        import os
+        others = {}
+        for fpath in sorted(glob.glob(os.path.join(vlib.SRC, "**", "*.py"), recursive=True)):
+            rel = os.path.relpath(fpath, vlib.SRC)
+            with open(fpath) as fh:
+                others[rel] = fh.read()
         text, spans, calls = gen_trace.generate(vlib.read_src("freeEnergy.py"),
                                                 vlib.read_src("thermodynamics.py"),
-                                                vlib.read_src("manager.py"))
+                                                vlib.read_src("manager.py"), others)
         ctx.write("TraceGen.v", text, sources=dict(
             files=["src/WallGo/freeEnergy.py", "src/WallGo/thermodynamics.py",
                    "src/WallGo/manager.py"],
@@ -1004,7 +1331,7 @@ def run(ctx):
         if k.get("property") == "C11" and isinstance(k.get("replay"), dict) and \
                 "model" in k["replay"]:
             try:
-                run_trace_case(ctx, dict(k["replay"]), "known")
+                replay_cfg(ctx, dict(k["replay"]), "known")
             except Exception as ex:
                 ctx.log("replay of known finding raised", traceback.format_exc())
     for cfg in DIRECTED:
@@ -1013,6 +1340,30 @@ def run(ctx):
         except Exception as ex:
             ctx.log("directed case raised", traceback.format_exc())
             ctx.broken.append("harness: directed case raised %r" % ex)
+    for cfg in DIRECTED_FINE:
+        try:
+            run_trace_case(ctx, dict(cfg), "fine")
+        except Exception as ex:
+            ctx.log("fine-step case raised", traceback.format_exc())
+            ctx.broken.append("harness: fine-step case raised %r" % ex)
+    for cfg in [dict(c) for c in DIRECTED_HISTORY] + history_cfgs(rng, ctx.n(6, 60), units):
+        try:
+            run_history_case(ctx, cfg)
+        except Exception as ex:
+            ctx.log("history case raised", traceback.format_exc())
+            ctx.broken.append("harness: history case raised %r" % ex)
+    for cfg in path_cfgs(rng, ctx.n(4, 40), units):
+        try:
+            run_trace_case(ctx, cfg, "paths")
+        except Exception as ex:
+            ctx.log("path case raised", traceback.format_exc())
+            ctx.broken.append("harness: path case raised %r" % ex)
+    for cfg in guess_cfgs(rng, ctx.n(6, 60), units):
+        try:
+            run_trace_case(ctx, cfg, "guess")
+        except Exception as ex:
+            ctx.log("perturbed-guess case raised", traceback.format_exc())
+            ctx.broken.append("harness: perturbed-guess case raised %r" % ex)
     cases = q1_cfgs(rng, ctx.n(24, 400), units) + tf_cfgs(rng, ctx.n(24, 400), units)
     for cfg in cases:
         try:
@@ -1073,8 +1424,5 @@ def replay(rep):
 
         def fail_input(self, what, r, key=None):
             print("FAILS [%s]: %s" % (key, what[:300]))
-    if rep.get("kind") == "tc":
-        run_tc_case(C(), cfg)
-    else:
-        run_trace_case(C(), cfg, "replay")
+    replay_cfg(C(), cfg, "replay")
     return 0
